@@ -666,11 +666,25 @@ def run(ctx):
     ctx.check("framing", "encode_framed/magic-length-body", fk == ["magic", "length-of-encoding", "encoding"], "frame = magic, u32 LE len(encoding), encoding",
               "encode_framed writes %s" % fk, ctx.loc(ef))
     # request.rs mirror
-    irr = ctx.fn("roughenough::request::is_rfc_request")
+    irr = P.fns.get("roughenough::request::is_rfc_request")
+    if irr is None:
+        # the private predicate was folded into another function of the request module (e.g. a `detect_framing` returning an enum): find the
+        # comparison with the magic there
+        for f2 in P.fns.values():
+            if not f2.path.startswith("roughenough::request::") or f2.derived:
+                continue
+            e2 = W.ev(f2.path)
+            for b2, t2 in f2.calls():
+                nm2 = callee_name(t2["fn"].get("path", ""))
+                if nm2 in ("eq", "starts_with", "ne") and any(x == ("bytes", magic) for x in e2.call_args(b2)):
+                    irr = f2
+                    r_found = e2.call_term(b2)
+        if irr is None:
+            raise AnchorMissing("comparison of the request's first bytes with the framing magic in the request module")
     iev = W.ev(irr.path)
-    r = iev.ret()
+    r = iev.ret() if irr.path.endswith("::is_rfc_request") else r_found
     okm = False
-    if is_call(r) and callee_name(r[1]) == "eq":
+    if is_call(r) and callee_name(r[1]) in ("eq", "ne"):
         a, b = r[2]
         sl, c = (a, b) if a[0] == "index" else (b, a)
         okm = sl[0] == "index" and sl[1] == ("param", irr.path, 1) and sl[2][0] == "agg" and c == ("bytes", magic) and \
